@@ -173,6 +173,286 @@ theorem attest_observing (s : C01.State) (o n h : Nat) (kind : C01.Kind) (hob : 
     | panics ms => simp [parks]
 
 
+
+/-! ## C05 / C06 — whole runs: a joint history of both models keeps them related -/
+
+/-- the operations of `Model/C05` that are neither an observation nor a deferred execution leave the shared fields alone -/
+def quiet5 : C05.Op → Bool
+  | .observe _ _ => false
+  | .exec _ => false
+  | _ => true
+
+theorem obs5_endBlock (s : C05.State) : obs5 (C05.endBlock s) = obs5 s := by
+  unfold C05.endBlock
+  generalize FxVerif.Gen.C05.endBlockerCleanups = l
+  induction l generalizing s with
+  | nil => rfl
+  | cons n t ih =>
+    simp only [List.foldl_cons]
+    rw [ih]
+    split
+    · exact obs5_cleanupBatches s
+    · split
+      · exact obs5_cleanupCalls s
+      · rfl
+
+theorem obs5_quiet (s : C05.State) (op : C05.Op) (hq : quiet5 op = true) : obs5 (C05.step s op).1 = obs5 s := by
+  cases op with
+  | observe h ev => simp [quiet5] at hq
+  | exec n => simp [quiet5] at hq
+  | send a d t am f => simp only [C05.step, C05.doSend]; repeat' split
+                       all_goals rfl
+  | cancel id who => simp only [C05.step, C05.doCancel]; repeat' split
+                     all_goals rfl
+  | incFee id who t add => simp only [C05.step, C05.doIncFee]; repeat' split
+                           all_goals rfl
+  | reqBatch t mf bf fr => simp only [C05.step, C05.doReqBatch]; repeat' split
+                           all_goals rfl
+  | bridgeCall a r to d m cs => simp only [C05.step, C05.doBridgeCall]; repeat' split
+                                all_goals rfl
+  | psend a d t am f => simp only [C05.step, C05.doPSend]; repeat' split
+                        all_goals rfl
+  | pcall a r to d m cs => simp only [C05.step, C05.doPCall]; repeat' split
+                           all_goals rfl
+  | setParams p => simp only [C05.step]; split <;> rfl
+  | block n => simp only [C05.step]; rw [obs5_endBlock]; rfl
+
+/-- `doExec` on the shared fields: nothing, or exactly one parked entry with that event nonce is consumed -/
+theorem doExec_obs (s : C05.State) (n : Nat) :
+    (obs5 (C05.doExec s n).1 = obs5 s ∧ (C05.doExec s n).2 ≠ .ok 0) ∨
+    (∃ p ∈ s.pending, p.1 = n ∧ (C05.doExec s n).2 = .ok 0 ∧
+      (C05.doExec s n).1.eventNonce = s.eventNonce ∧ (C05.doExec s n).1.pending = s.pending.erase p) := by
+  unfold C05.doExec
+  cases hf : s.pending.find? (fun p => p.1 = n) with
+  | none => left; exact ⟨rfl, by simp⟩
+  | some p =>
+    have hp : p ∈ s.pending := List.mem_of_find?_eq_some hf
+    have hpn : p.1 = n := by simpa using List.find?_some hf
+    simp only []
+    cases hc : s.calls.find? (fun c => c.nonce = p.2.1) with
+    | none => left; exact ⟨rfl, by simp⟩
+    | some c =>
+      right
+      refine ⟨p, hp, hpn, ?_⟩
+      simp only []
+      repeat' split
+      all_goals exact ⟨rfl, rfl, rfl⟩
+
+/-- the relation kept along joint histories: same last observed nonce; every nonce parked in the C05 state is parked in the
+C01 state; the parked nonces of the C05 state are distinct and not above the last observed nonce -/
+structure Rel5 (s1 : C01.State) (s5 : C05.State) : Prop where
+  lo : s5.eventNonce = s1.lastObserved
+  sub : ∀ n ∈ s5.pending.map (·.1), n ∈ s1.pending
+  nd : (s5.pending.map (·.1)).Nodup
+  le : ∀ n ∈ s5.pending.map (·.1), n ≤ s5.eventNonce
+
+/-- joint operations: a claim (of the kind the C05 event has), submitted to the C01 model — the C05 model observes the event
+exactly when the claim makes it take effect; an operation of the C01 model that is not a claim or a deferred execution; a
+quiet operation of the C05 model; the deferred execution of a parked result claim in both -/
+inductive JOp where
+  | claim (w i n h e hgt : Nat) (ev : C05.Ev)
+  | left (op : C01.Op)
+  | right (op : C05.Op)
+  | exec (n : Nat)
+
+def leftOk : C01.Op → Bool
+  | .claim .. => false
+  | .exec .. => false
+  | _ => true
+
+def jstep (s : C01.State × C05.State) : JOp → C01.State × C05.State
+  | .claim w i n h e hgt ev =>
+    let r1 := C01.step s.1 (.claim w i n h (kindOfEv s.2 ev) e)
+    if r1.2 = .ok ∧ r1.1.lastObserved ≠ s.1.lastObserved then (r1.1, (C05.doObserve s.2 hgt ev).1) else (r1.1, s.2)
+  | .left op => if leftOk op then ((C01.step s.1 op).1, s.2) else s
+  | .right op => if quiet5 op then (s.1, (C05.step s.2 op).1) else s
+  | .exec n =>
+    -- the C05 model decides how the handler ends: `ok` consumes the parked claim in both, anything else changes nothing
+    if (C05.doExec s.2 n).2 = .ok 0 then ((C01.step s.1 (.exec n .ok .nil)).1, (C05.doExec s.2 n).1)
+    else ((C01.step s.1 (.exec n .fail .nil)).1, (C05.doExec s.2 n).1)
+
+def jrun (s : C01.State × C05.State) (ops : List JOp) : C01.State × C05.State := ops.foldl jstep s
+
+theorem left_core (s : C01.State) (op : C01.Op) (h : leftOk op = true) : Core (C01.step s op).1 = Core s := by
+  cases op with
+  | claim w i n h k e => simp [leftOk] at h
+  | exec n o c => simp [leftOk] at h
+  | bond o b e a d => exact (bond_core s o b e a d).1
+  | addDelegate o a d => exact (addDelegate_core s o a d).1
+  | editBridger o b => exact (editBridger_core s o b).1
+  | unbond o u bal d => exact unbond_core s o u bal d
+  | gov l d => exact (gov_core s l d).1
+  | endBlock l r => exact (endBlock_core s l r).1
+
+theorem map_fst_erase (l : List (Nat × Nat × Bool)) (p : Nat × Nat × Bool) (hp : p ∈ l) (hnd : (l.map (·.1)).Nodup) :
+    (l.erase p).map (·.1) = (l.map (·.1)).erase p.1 := by
+  induction l with
+  | nil => cases hp
+  | cons q t ih =>
+    simp only [List.map_cons, List.nodup_cons] at hnd
+    by_cases hq : q = p
+    · subst hq; simp
+    · have hpt : p ∈ t := by
+        rcases List.mem_cons.mp hp with e | e
+        · exact absurd e.symm hq
+        · exact e
+      have hq1 : q.1 ≠ p.1 := by
+        intro hc'
+        exact hnd.1 (by rw [hc']; exact List.mem_map.mpr ⟨p, hpt, rfl⟩)
+      rw [List.erase_cons_tail (by simpa using hq), List.map_cons, List.map_cons,
+        List.erase_cons_tail (by simpa using hq1), ih hpt hnd.2]
+
+theorem rel5_step (s : C01.State × C05.State) (op : JOp) (hR : Rel5 s.1 s.2) : Rel5 (jstep s op).1 (jstep s op).2 := by
+  obtain ⟨s1, s5⟩ := s
+  replace hR : Rel5 s1 s5 := hR
+  cases op with
+  | left op =>
+    simp only [jstep]
+    split
+    · rename_i hl
+      have hc := left_core s1 op hl
+      simp only [Core, Prod.mk.injEq] at hc
+      exact ⟨by rw [hc.1]; exact hR.lo, by rw [hc.2.2.1]; exact hR.sub, hR.nd, hR.le⟩
+    · exact hR
+  | right op =>
+    simp only [jstep]
+    split
+    · rename_i hq
+      have ho := obs5_quiet s5 op hq
+      have h1 : (C05.step s5 op).1.eventNonce = s5.eventNonce := congrArg Prod.fst ho
+      have h2 : (C05.step s5 op).1.pending.map (·.1) = s5.pending.map (·.1) := congrArg Prod.snd ho
+      exact ⟨by rw [h1]; exact hR.lo, by rw [h2]; exact hR.sub, by rw [h2]; exact hR.nd, by rw [h2, h1]; exact hR.le⟩
+    · exact hR
+  | claim w i n h e hgt ev =>
+    simp only [jstep]
+    split
+    · rename_i hcond
+      obtain ⟨hok, hmoved⟩ := hcond
+      simp only [C01.step] at hok hmoved ⊢
+      obtain ⟨a, _, hga, _, _, _, _, _, heq⟩ := claim_ok s1 w i n h _ hok
+      rw [heq] at hmoved ⊢
+      have hobs : C01.observesNow s1 a n h = true := by
+        cases hx : C01.observesNow s1 a n h
+        · exact absurd (attest_not_observing s1 a n h _ hx).1 hmoved
+        · rfl
+      have hk : ∀ ms, kindOfEv s5 ev ≠ .panics ms := by
+        intro ms hc
+        rw [hc] at hok
+        obtain ⟨a', hga', hno⟩ := panics_not_ok_or_not_observing s1 w i n h ms hok
+        rw [hga] at hga'; cases hga'
+        rw [hobs] at hno; cases hno
+      obtain ⟨hn, hlo, hpend⟩ := attest_observing s1 a n h (kindOfEv s5 ev) hobs
+      obtain ⟨_, ho⟩ := doObserve_obs s5 hgt ev hk
+      have ho1 : (C05.doObserve s5 hgt ev).1.eventNonce = s5.eventNonce + 1 := congrArg Prod.fst ho
+      have ho2 : (C05.doObserve s5 hgt ev).1.pending.map (·.1) =
+          s5.pending.map (·.1) ++ (if parks (kindOfEv s5 ev) then [s5.eventNonce + 1] else []) := congrArg Prod.snd ho
+      have hen : s5.eventNonce + 1 = n := by rw [hR.lo, hn]
+      refine ⟨by rw [ho1, hlo, hen], ?_, ?_, ?_⟩
+      · intro m hm
+        rw [ho2] at hm
+        rcases List.mem_append.mp hm with h1 | h1
+        · exact (hpend m).mpr (Or.inl (hR.sub m h1))
+        · cases hpk : parks (kindOfEv s5 ev)
+          · simp [hpk] at h1
+          · simp [hpk] at h1
+            exact (hpend m).mpr (Or.inr ⟨hpk, by rw [h1, hen]⟩)
+      · rw [ho2, List.nodup_append]
+        refine ⟨hR.nd, by split <;> simp, ?_⟩
+        intro x hx y hy
+        have := hR.le x hx
+        split at hy
+        · simp at hy; omega
+        · cases hy
+      · intro m hm
+        rw [ho2] at hm
+        rw [ho1]
+        rcases List.mem_append.mp hm with h1 | h1
+        · have := hR.le m h1; omega
+        · split at h1
+          · simp at h1; omega
+          · cases h1
+    · rename_i hcond
+      -- the claim is a mere vote, is refused, or is undone by a handler panic: the C05 model does not move
+      simp only [C01.step] at hcond ⊢
+      by_cases hok : (C01.claimStep s1 w i n h (kindOfEv s5 ev)).2 = .ok
+      · have hsame : (C01.claimStep s1 w i n h (kindOfEv s5 ev)).1.lastObserved = s1.lastObserved := by
+          by_cases hx : (C01.claimStep s1 w i n h (kindOfEv s5 ev)).1.lastObserved = s1.lastObserved
+          · exact hx
+          · exact absurd ⟨hok, hx⟩ hcond
+        obtain ⟨a, _, _, _, _, _, _, _, heq⟩ := claim_ok s1 w i n h _ hok
+        rw [heq] at hsame ⊢
+        have hno : C01.observesNow s1 a n h = false := by
+          cases hx : C01.observesNow s1 a n h
+          · rfl
+          · obtain ⟨hn, hlo, _⟩ := attest_observing s1 a n h (kindOfEv s5 ev) hx
+            rw [hlo, hn] at hsame; omega
+        obtain ⟨h1, _, h3⟩ := attest_not_observing s1 a n h (kindOfEv s5 ev) hno
+        exact ⟨by rw [h1]; exact hR.lo, by rw [h3]; exact hR.sub, hR.nd, hR.le⟩
+      · rw [claim_not_ok s1 w i n h _ hok]; exact hR
+  | exec n =>
+    simp only [jstep]
+    rcases doExec_obs s5 n with ⟨hsame, hne⟩ | ⟨p, hp, hpn, hr, he, hpd⟩
+    · -- nothing happens in the C05 model; the C01 execution is a failing one: nothing happens either
+      have h1 : (C05.doExec s5 n).1.eventNonce = s5.eventNonce := congrArg Prod.fst hsame
+      have h2 : (C05.doExec s5 n).1.pending.map (·.1) = s5.pending.map (·.1) := congrArg Prod.snd hsame
+      simp only [hne, if_false]
+      have hf : (C01.step s1 (.exec n .fail .nil)).1 = s1 := by
+        simp only [C01.step]; unfold C01.execStep
+        repeat' split
+        all_goals first | rfl | simp_all
+      rw [hf]
+      exact ⟨by rw [h1]; exact hR.lo, by rw [h2]; exact hR.sub, by rw [h2]; exact hR.nd, by rw [h2, h1]; exact hR.le⟩
+    · simp only [hr, if_true]
+      have hn1 : n ∈ s1.pending := hR.sub n (List.mem_map.mpr ⟨p, hp, hpn⟩)
+      have hc : FxVerif.Gen.C01.execChecksPending = true := by decide
+      have hd : FxVerif.Gen.C01.execDeletesPending = true := by decide
+      have hdf : FxVerif.Gen.C01.execDeletesBeforeHandler = true := by decide
+      have hstep : (C01.step s1 (.exec n .ok .nil)).1 =
+          { s1 with pending := s1.pending.filter (fun m => m != n), executedLog := s1.executedLog ++ [n] } := by
+        simp [C01.step, C01.execStep, C01.execCalls, C01.execCallsWith, C01.delPending, hn1, hc, hd, hdf]
+      rw [hstep]
+      have hkeys : (s5.pending.erase p).map (·.1) = (s5.pending.map (·.1)).erase n := by
+        rw [← hpn]; exact map_fst_erase s5.pending p hp hR.nd
+      refine ⟨by rw [he]; exact hR.lo, ?_, ?_, ?_⟩
+      · intro m hm
+        rw [hpd, hkeys] at hm
+        have hm' : m ∈ s5.pending.map (·.1) := List.mem_of_mem_erase hm
+        have hmn : m ≠ n := by
+          intro e; subst e
+          exact (List.Nodup.not_mem_erase hR.nd) hm
+        simp only [List.mem_filter]
+        exact ⟨hR.sub m hm', by simpa using hmn⟩
+      · rw [hpd, hkeys]; exact hR.nd.erase n
+      · intro m hm
+        rw [hpd, hkeys] at hm
+        rw [he]; exact hR.le m (List.mem_of_mem_erase hm)
+
+theorem rel5_run (s : C01.State × C05.State) (ops : List JOp) (hR : Rel5 s.1 s.2) : Rel5 (jrun s ops).1 (jrun s ops).2 := by
+  unfold jrun
+  induction ops generalizing s with
+  | nil => exact hR
+  | cons op r ih => exact ih _ (rel5_step s op hR)
+
+/-- the C01 component of a joint step is a step of the C01 model (or nothing) -/
+theorem jstep_left (s : C01.State × C05.State) (op : JOp) : (jstep s op).1 = s.1 ∨ ∃ op', (jstep s op).1 = (C01.step s.1 op').1 := by
+  cases op with
+  | claim w i n h e hgt ev => right; simp only [jstep]; split <;> exact ⟨_, rfl⟩
+  | left op => simp only [jstep]; split
+               · exact Or.inr ⟨_, rfl⟩
+               · exact Or.inl rfl
+  | right op => left; simp only [jstep]; split <;> rfl
+  | exec n => right; simp only [jstep]; split <;> exact ⟨_, rfl⟩
+
+theorem inv_jrun (s : C01.State × C05.State) (ops : List JOp) (hI : Inv s.1) : Inv (jrun s ops).1 := by
+  unfold jrun
+  induction ops generalizing s with
+  | nil => exact hI
+  | cons op r ih =>
+    refine ih _ ?_
+    rcases jstep_left s op with e | ⟨op', e⟩
+    · rw [e]; exact hI
+    · rw [e]; exact inv_step _ _ hI
+
 /-! ## C03 -/
 
 section C03
